@@ -22,6 +22,41 @@ impl<CS: CipherSuite> Envelope<CS> {
         crate::verif_kani::w_stubs::seal::<CS, R>(rng, randomized_pwd_hasher, server_s_pk, ids)
     }
 
+    /// reference stub for `seal_raw` (≡ by s9_seal_raw): tag and export key from the remembered randomized password
+    #[allow(clippy::type_complexity)]
+    pub(crate) fn verif_seal_raw_stub<'a>(
+        _randomized_pwd_hasher: Hkdf<OprfHash<CS>>,
+        nonce: GenericArray<u8, NonceLen>,
+        aad: impl Iterator<Item = &'a [u8]>,
+        mode: InnerEnvelopeMode,
+    ) -> Result<SealRawResult<CS>, InternalError> {
+        let rpwd = unsafe { crate::verif_kani::w_stubs::LAST_RPWD };
+        let mut buf = [0u8; 32];
+        let n = drain_aad(aad, &mut buf);
+        let auth_key = sp::hkdf_expand8(&rpwd, &[&nonce, b"AuthKey"]);
+        let export = sp::hkdf_expand8(&rpwd, &[&nonce, b"ExportKey"]);
+        let tag = sp::hmac(&auth_key, &[&nonce, &buf[..n]]);
+        Ok((Self { mode, nonce, hmac: GenericArray::clone_from_slice(&tag) }, GenericArray::clone_from_slice(&export)))
+    }
+
+    /// reference stub for `open_raw` (≡ by s9_open_raw_exact)
+    pub(crate) fn verif_open_raw_stub<'a>(
+        &self,
+        _randomized_pwd_hasher: Hkdf<OprfHash<CS>>,
+        aad: impl Iterator<Item = &'a [u8]>,
+    ) -> Result<OpenedInnerEnvelope<CS>, InternalError> {
+        let rpwd = unsafe { crate::verif_kani::w_stubs::LAST_RPWD };
+        let mut buf = [0u8; 32];
+        let n = drain_aad(aad, &mut buf);
+        let auth_key = sp::hkdf_expand8(&rpwd, &[&self.nonce, b"AuthKey"]);
+        let export = sp::hkdf_expand8(&rpwd, &[&self.nonce, b"ExportKey"]);
+        let tag = sp::hmac(&auth_key, &[&self.nonce, &buf[..n]]);
+        if !eq_bytes(&tag, &self.hmac) {
+            return Err(InternalError::SealOpenHmacError);
+        }
+        Ok(OpenedInnerEnvelope { export_key: GenericArray::clone_from_slice(&export) })
+    }
+
     /// nonce || auth_tag without the `serialize()` where-clauses
     pub(crate) fn to_bytes_for_verif(&self) -> [u8; 40] {
         let mut out = [0u8; 40];
@@ -38,6 +73,42 @@ impl<CS: CipherSuite> Envelope<CS> {
     ) -> Result<OpenedEnvelope<'a, CS>, ProtocolError> {
         crate::verif_kani::w_stubs::open::<CS>(self, randomized_pwd_hasher, server_s_pk, optional_ids)
     }
+}
+
+/// concatenate at most 8 parts of associated data (the real callers pass 5)
+fn drain_aad<'a>(aad: impl Iterator<Item = &'a [u8]>, buf: &mut [u8; 32]) -> usize {
+    let mut it = aad;
+    let mut n = 0usize;
+    let mut parts = 0;
+    while parts < 8 {
+        match it.next() {
+            Some(p) => {
+                let mut i = 0;
+                while i < p.len() {
+                    if n < 32 {
+                        buf[n] = p[i];
+                        n += 1;
+                    }
+                    i += 1;
+                }
+            }
+            None => break,
+        }
+        parts += 1;
+    }
+    n
+}
+
+/// reference stubs for the two key-recovery helpers (≡ by s9_keys_internal)
+pub(crate) fn stub_build_inner<CS: CipherSuite>(_h: Hkdf<OprfHash<CS>>, nonce: GenericArray<u8, NonceLen>) -> Result<PublicKey<CS::KeGroup>, ProtocolError> {
+    let rpwd = unsafe { crate::verif_kani::w_stubs::LAST_RPWD };
+    let (_, cpk, _) = spec::envelope_keys(&rpwd, &nonce);
+    Ok(PublicKey::deserialize(&cpk)?)
+}
+pub(crate) fn stub_recover_keys<CS: CipherSuite>(_h: Hkdf<OprfHash<CS>>, nonce: GenericArray<u8, NonceLen>) -> Result<KeyPair<CS::KeGroup>, ProtocolError> {
+    let rpwd = unsafe { crate::verif_kani::w_stubs::LAST_RPWD };
+    let (csk, _, _) = spec::envelope_keys(&rpwd, &nonce);
+    KeyPair::<CS::KeGroup>::from_private_key_slice(&[csk])
 }
 
 fn hkdf_of(rpwd: &[u8; 8]) -> Hkdf<MHash> {
@@ -57,6 +128,7 @@ fn seal_case(has_c: bool, clen: usize, has_s: bool, slen: usize) {
     let ids = any_bytes::<2>();
     let mut tape = Tape::symbolic();
     let spk = PublicKey::<G241>::deserialize(&[PK_TAG, spkv]).unwrap();
+    unsafe { crate::verif_kani::w_stubs::LAST_RPWD = rpwd };
     let r = Envelope::<M>::seal(&mut tape, hkdf_of(&rpwd), &spk, ids_case(has_c, &idc[..clen], has_s, &ids[..slen]));
     check!(r.is_ok(), "sealing succeeds");
     let Ok(res) = r else { return };
@@ -84,6 +156,7 @@ fn open_case(has_c: bool, clen: usize, has_s: bool, slen: usize) {
     let envb = any_bytes::<40>();
     let spk = PublicKey::<G241>::deserialize(&[PK_TAG, spkv]).unwrap();
     let env = Envelope::<M>::deserialize(&envb).unwrap();
+    unsafe { crate::verif_kani::w_stubs::LAST_RPWD = rpwd };
     let r = env.open(hkdf_of(&rpwd), spk, ids_case(has_c, &idc[..clen], has_s, &ids[..slen]));
     let spkb = [PK_TAG, spkv];
     let (csk, cpk, export) = spec::envelope_keys(&rpwd, &envb[0..32]);
@@ -186,4 +259,50 @@ harnesses! {
         check!(end.is_none(), "nothing else");
         cover!(true, "reached");
     }
+
+    /// S9: the two key-recovery helpers: client key pair = DeriveDiffieHellmanKeyPair(Expand(randomized_pwd, nonce || "PrivateKey"))
+    fn s9_keys_internal [unwind = 46] {
+        let rpwd = any_bytes::<8>();
+        let nonce = any_bytes::<32>();
+        let (csk, cpk, _) = spec::envelope_keys(&rpwd, &nonce);
+        let pk = build_inner_envelope_internal::<M>(hkdf_of(&rpwd), GenericArray::clone_from_slice(&nonce));
+        check!(pk.is_ok(), "client public key is derived");
+        if let Ok(pk) = pk {
+            check!(eq_bytes(&pk.serialize(), &cpk), "client public key per RFC 9807 4.1.2");
+            core::mem::forget(pk);
+        }
+        let kp = recover_keys_internal::<M>(hkdf_of(&rpwd), GenericArray::clone_from_slice(&nonce));
+        check!(kp.is_ok(), "client key pair is recovered");
+        if let Ok(kp) = kp {
+            check!(kp.private().serialize()[0] == csk && eq_bytes(&kp.public().serialize(), &cpk), "client key pair per RFC 9807 4.1.3 (same derivation as at registration)");
+            cover!(true, "reached");
+            core::mem::forget(kp);
+        }
+    }
+
+    // wiring of seal/open: the helpers replaced by their reference stubs (≡ by s9_keys_internal, s9_seal_raw, s9_open_raw_exact)
+    #[cfg_attr(kani, kani::stub(crate::envelope::build_inner_envelope_internal, crate::envelope::verif_kani_envelope::stub_build_inner))]
+    #[cfg_attr(kani, kani::stub(crate::envelope::Envelope::seal_raw, crate::envelope::Envelope::verif_seal_raw_stub))]
+    fn s9w_seal_default_ids [unwind = 46] { seal_case(false, 0, false, 0); }
+    #[cfg_attr(kani, kani::stub(crate::envelope::build_inner_envelope_internal, crate::envelope::verif_kani_envelope::stub_build_inner))]
+    #[cfg_attr(kani, kani::stub(crate::envelope::Envelope::seal_raw, crate::envelope::Envelope::verif_seal_raw_stub))]
+    fn s9w_seal_explicit_ids [unwind = 46] { seal_case(true, 2, true, 1); }
+    #[cfg_attr(kani, kani::stub(crate::envelope::build_inner_envelope_internal, crate::envelope::verif_kani_envelope::stub_build_inner))]
+    #[cfg_attr(kani, kani::stub(crate::envelope::Envelope::seal_raw, crate::envelope::Envelope::verif_seal_raw_stub))]
+    fn s9w_seal_server_only [unwind = 46] { seal_case(false, 0, true, 0); }
+    #[cfg_attr(kani, kani::stub(crate::envelope::build_inner_envelope_internal, crate::envelope::verif_kani_envelope::stub_build_inner))]
+    #[cfg_attr(kani, kani::stub(crate::envelope::Envelope::seal_raw, crate::envelope::Envelope::verif_seal_raw_stub))]
+    fn s9w_seal_client_only [unwind = 46] { seal_case(true, 1, false, 0); }
+    #[cfg_attr(kani, kani::stub(crate::envelope::recover_keys_internal, crate::envelope::verif_kani_envelope::stub_recover_keys))]
+    #[cfg_attr(kani, kani::stub(crate::envelope::Envelope::open_raw, crate::envelope::Envelope::verif_open_raw_stub))]
+    fn s9w_open_default_ids [unwind = 46] { open_case(false, 0, false, 0); }
+    #[cfg_attr(kani, kani::stub(crate::envelope::recover_keys_internal, crate::envelope::verif_kani_envelope::stub_recover_keys))]
+    #[cfg_attr(kani, kani::stub(crate::envelope::Envelope::open_raw, crate::envelope::Envelope::verif_open_raw_stub))]
+    fn s9w_open_explicit_ids [unwind = 46] { open_case(true, 2, true, 1); }
+    #[cfg_attr(kani, kani::stub(crate::envelope::recover_keys_internal, crate::envelope::verif_kani_envelope::stub_recover_keys))]
+    #[cfg_attr(kani, kani::stub(crate::envelope::Envelope::open_raw, crate::envelope::Envelope::verif_open_raw_stub))]
+    fn s9w_open_client_empty [unwind = 46] { open_case(true, 0, false, 0); }
+    #[cfg_attr(kani, kani::stub(crate::envelope::recover_keys_internal, crate::envelope::verif_kani_envelope::stub_recover_keys))]
+    #[cfg_attr(kani, kani::stub(crate::envelope::Envelope::open_raw, crate::envelope::Envelope::verif_open_raw_stub))]
+    fn s9w_open_server_only [unwind = 46] { open_case(false, 0, true, 2); }
 }
